@@ -214,6 +214,13 @@ class Translator:
             return "(%spy_neg %s)" % (b1, a1)
         if isinstance(e, (ast.Compare, ast.BoolOp)) or (isinstance(e, ast.UnaryOp) and isinstance(e.op, ast.Not)):
             return "(of_bool %s)" % self.test(e, ctx)
+        if isinstance(e, ast.Tuple):
+            binds, terms = "", []
+            for x in e.elts:
+                b, a = self.atom(x, ctx)
+                binds += b
+                terms.append(a)
+            return "(%sOk (PTuple [%s]))" % (binds, "; ".join(terms))
         if isinstance(e, ast.Subscript):
             return self.subscript(e, ctx)
         if isinstance(e, ast.Attribute) and e.attr == "centipoints":
@@ -274,6 +281,20 @@ class Translator:
         if e.keywords:
             raise Unmodelled("keyword arguments in " + ast.unparse(e))
         f = e.func
+        # all(c in "<constant>" for c in <str expr>)
+        if isinstance(f, ast.Name) and f.id == "all" and len(e.args) == 1 and isinstance(e.args[0], ast.GeneratorExp):
+            g = e.args[0]
+            if len(g.generators) == 1 and not g.generators[0].ifs and isinstance(g.generators[0].target, ast.Name) \
+                    and isinstance(g.elt, ast.Compare) and len(g.elt.ops) == 1 and isinstance(g.elt.ops[0], ast.In) \
+                    and isinstance(g.elt.left, ast.Name) and g.elt.left.id == g.generators[0].target.id:
+                try:
+                    allowed = self.const_of(g.elt.comparators[0], ctx)
+                except KeyError:
+                    allowed = None
+                if isinstance(allowed, str):
+                    b0, a0 = self.atom(g.generators[0].iter, ctx)
+                    return "(%spy_all_chars_in %s %s)" % (b0, a0, coq_str(allowed))
+            raise Unmodelled("all(...) shape " + ast.unparse(e))
         if isinstance(f, ast.Name) and f.id == "isinstance" and len(e.args) == 2:
             b0, a0 = self.atom(e.args[0], ctx)
             cl = e.args[1]
